@@ -341,3 +341,44 @@ func (c *Ctx) ParallelDo(n int, fn func(worker, i int) error) error {
 	wg.Wait()
 	return firstErr
 }
+
+// ShardedDo runs fn(worker, i) for i in [0,n) with job i pinned to worker
+// shard(i) % Workers: every run of one configuration happens in the same worker
+// directory (same absolute paths, same private HOME/TMPDIR).
+func (c *Ctx) ShardedDo(n int, shard func(i int) int, fn func(worker, i int) error) error {
+	lists := make([][]int, c.Workers)
+	for i := 0; i < n; i++ {
+		w := shard(i) % c.Workers
+		if w < 0 {
+			w = -w
+		}
+		lists[w] = append(lists[w], i)
+	}
+	var wg sync.WaitGroup
+	var mu sync.Mutex
+	var firstErr error
+	for w := range lists {
+		wg.Add(1)
+		go func(w int) {
+			defer wg.Done()
+			for _, i := range lists[w] {
+				mu.Lock()
+				failed := firstErr != nil
+				mu.Unlock()
+				if failed {
+					return
+				}
+				if err := fn(w, i); err != nil {
+					mu.Lock()
+					if firstErr == nil {
+						firstErr = err
+					}
+					mu.Unlock()
+					return
+				}
+			}
+		}(w)
+	}
+	wg.Wait()
+	return firstErr
+}
